@@ -1,4 +1,7 @@
 package routing
 
-// number of table operations in the CIDR bounded history (thorough tier)
-const c08Ops = 3
+// number of table operations in the CIDR bounded history (3 operations did not finish within 50 minutes)
+const c08Ops = 2
+
+// announcements for one key in the order harnesses
+const cOrdAdds = 4
